@@ -538,7 +538,9 @@ def rules(tier):
             # --limit and the session options reach the run under their own keys
             ('C09.R9', _shared_rule('plumbing', 'option_round_trip')),
             # C09-ca: os._exit(0) after main(): the buffered tail of the guess stream is never written
-            ('C09.R10', _shared_rule('plumbing', 'no_unflushed_exit'))]
+            ('C09.R10', _shared_rule('plumbing', 'no_unflushed_exit')),
+            # C09-da: _load_ngrams with errors='surrogateescape' - unprintable Markov guesses are counted against --limit
+            ('C09.R11', _shared_rule('plumbing', 'decode_error_policy'))]
 
 
 META = {
